@@ -64,6 +64,12 @@ def run(ctx):
                     if isinstance(b, ast.Assign) and isinstance(b.value, ast.Call) and isinstance(b.value.func, ast.Name):
                         ctor = b.value
                 dispatch[name] = ctor
+    # table dispatch: NAME -> class in a dict display, constructed through a local bound from TABLE[self.marginal_oracle]
+    from ..engines.solvers import dispatch_tables, table_constructions
+    for call, tname, table in table_constructions(setup, dispatch_tables(repo, LI, 'LocalInference')):
+        for name, cname in table.items():
+            pseudo = ast.copy_location(ast.Call(func=ast.Name(id=cname, ctx=ast.Load()), args=call.args, keywords=call.keywords), call)
+            dispatch.setdefault(name, pseudo)
     if not dispatch:
         raise AnalysisError('no oracle dispatch found in %s' % setup.qualname)
     for name in DOCUMENTED:
@@ -165,8 +171,19 @@ def run(ctx):
            % (stores.get('self.model.potentials'), stores.get('self.model.marginals')))
 
 
+def is_l1_gap(v):
+    return isinstance(v, ast.Call) and U(v.func) in ('np.linalg.norm', 'numpy.linalg.norm') and len(v.args) == 2 and U(v.args[1]) == '1' \
+        and isinstance(v.args[0], ast.BinOp) and isinstance(v.args[0].op, ast.Sub)
+
+
 def check_feasibility(ctx, classes):
-    """primal_feasibility of every oracle class: mean over pairs of ||x - y||_1, nothing else"""
+    """primal_feasibility of every oracle class: the plain mean over pairs of ||x - y||_1 (0 when there are no pairs), nothing else.
+    Decided on the expanded result: `ans += gap; count += 1 ... ans / count` and `sum(E) / len(E)` over the comprehension E of the
+    gaps (or np.mean(E)) are the same quantity."""
+    from ..engines.blockeval import BlockEval, T
+    from ..engines.builders import Builder, strip_wrappers
+    from ..normalise import single_exit
+    from ..srcmodel import clone
     repo = ctx.repo
     for cname in sorted(classes):
         rel = resolve_class(repo, cname)
@@ -174,26 +191,66 @@ def check_feasibility(ctx, classes):
         if fi is None:
             continue
         ctx.analysed(fi)
-        accs = [s for s in ast.walk(fi.node) if isinstance(s, ast.AugAssign) and isinstance(s.op, ast.Add) and isinstance(s.target, ast.Name)]
-        defs = {s.targets[0].id: s.value for s in ast.walk(fi.node) if isinstance(s, ast.Assign) and len(s.targets) == 1 and isinstance(s.targets[0], ast.Name)}
-        acc = cnt = None
-        for a in accs:
-            v = defs.get(U(a.value), a.value) if isinstance(a.value, ast.Name) else a.value
-            if isinstance(v, ast.Call) and U(v.func) == 'np.linalg.norm' and len(v.args) == 2 and U(v.args[1]) == '1' \
-                    and isinstance(v.args[0], ast.BinOp) and isinstance(v.args[0].op, ast.Sub):
-                acc = a.target.id
-            elif isinstance(a.value, ast.Constant) and a.value.value == 1:
-                cnt = a.target.id
-        rets = [r for r in ast.walk(fi.node) if isinstance(r, ast.Return) and r.value is not None]
-        ok = acc is not None and cnt is not None and bool(rets)
-        forms = []
-        for r in rets:
-            t = U(r.value).replace(' ', '')
-            forms.append(t)
+        stmts, _ = single_exit(clone(fi.body), '__ret__')
+        be = BlockEval(fi.qualname, loop_ok=lambda s_: True)
+        be.run(stmts)
+        R = be.env.get('__ret__')
+        if R is None:
+            raise AnalysisError('%s.primal_feasibility: no result' % cname)
+        # summation accumulators: X starts at 0 and becomes X + V once per innermost iteration
+        sums, conds = {}, {}
+        for loop, entry, body_env, pc in be.loops_done:
+            for k, v in body_env.items():
+                cond = None
+                if isinstance(v, ast.IfExp) and (T(v.body) == k) != (T(v.orelse) == k):
+                    # counted only for the pairs that satisfy a condition: `X + V if c else X`
+                    cond = T(v.test) if T(v.orelse) == k else 'not ' + T(v.test)
+                    v = v.body if T(v.orelse) == k else v.orelse
+                if isinstance(v, ast.BinOp) and isinstance(v.op, ast.Add) and T(v.left) == k:
+                    sums[k] = v.right
+                    conds[k] = cond
+        inits = {}
+        for loop, entry, body_env, pc in be.loops_done:
+            for k in sums:
+                if k in entry and not (isinstance(entry[k], ast.Name) and entry[k].id == k):
+                    inits.setdefault(k, entry[k])
+        leaves = []
+
+        def walk(e, path):
+            if isinstance(e, ast.IfExp):
+                walk(e.body, path + [(T(e.test), True)])
+                walk(e.orelse, path + [(T(e.test), False)])
+            else:
+                leaves.append((e, path))
+        walk(R, [])
+        ok = True
+        shown = []
+        n_mean = 0
+        for e, path in leaves:
+            t = T(e)
+            shown.append(U(e)[:80])
             if t in ('0', '0.0'):
+                # the empty case: guarded by count == 0 / len(E) == 0
+                if not path:
+                    ok = False
                 continue
-            if t not in ('%s/%s' % (acc, cnt), '0if%s==0else%s/%s' % (cnt, acc, cnt)):
-                ok = False
-        ctx.ob('feasibility-form', fi, rets[-1] if rets else fi.node, ok,
-               '%s.primal_feasibility must return the mean L1 gap `%s / %s` in records (LocalInference stops its consistency sweeps '
-               'when it drops below the fixed threshold 1.0); returns %s' % (cname, acc, cnt, forms))
+            mean = False
+            if isinstance(e, ast.BinOp) and isinstance(e.op, ast.Div):
+                num, den = e.left, e.right
+                if isinstance(num, ast.Name) and isinstance(den, ast.Name) and num.id in sums and den.id in sums:
+                    mean = is_l1_gap(sums[num.id]) and T(sums[den.id]) == '1' and T(inits.get(num.id)) in ('0', '0.0') \
+                        and T(inits.get(den.id)) == '0' and conds.get(num.id) == conds.get(den.id)
+                elif isinstance(num, ast.Call) and U(num.func) in ('sum', 'np.sum') and len(num.args) == 1 and \
+                        isinstance(den, ast.Call) and U(den.func) == 'len' and len(den.args) == 1 and T(num.args[0]) == T(den.args[0]):
+                    b = Builder.of_comprehension(num.args[0])
+                    mean = b is not None and is_l1_gap(b.elt) and not b.conds
+            elif isinstance(e, ast.Call) and U(e.func) in ('np.mean', 'numpy.mean') and len(e.args) == 1:
+                b = Builder.of_comprehension(e.args[0])
+                mean = b is not None and is_l1_gap(b.elt) and not b.conds
+            n_mean += int(mean)
+            ok = ok and mean
+        ok = ok and n_mean >= 1
+        ctx.ob('feasibility-form', fi, fi.node, ok,
+               '%s.primal_feasibility must return the plain mean of the L1 gaps in records (LocalInference stops its consistency sweeps '
+               'when it drops below the fixed threshold 1.0), 0 when there are no pairs; returns %s' % (cname, shown),
+               construct='result of %s.primal_feasibility' % cname)
